@@ -29,7 +29,12 @@ def check_access_rows(chk, it, tabs, rows, configs, rule_rt, rule_ea, rt_check, 
     for row in rows:
         nm = row['name']
         site = 'emitter/' + nm
-        mt = mr.extract_mem(it, row, tabs, configs)
+        try:
+            mt = mr.extract_mem(it, row, tabs, configs)
+        except emit.ScriptMismatch as e:
+            chk.fail(rule_ea, nm + ':memarg-decoders', '%s: %s - the alignment/offset immediates are u32 LEB128 values; read otherwise, a '
+                     'valid encoding yields another offset' % (nm, e), site)
+            continue
         if not mt.variants:
             chk.fail(rule_ea, nm + ':emits', 'no successful emission path for %s' % nm, site)
             continue
